@@ -104,6 +104,8 @@ static UriBool URI_FUNC(ContainsUglyPercentEncoding)(const URI_CHAR * first,
 
 static void URI_FUNC(LowercaseInplace)(const URI_CHAR * first,
 		const URI_CHAR * afterLast);
+static void URI_FUNC(LowercaseInplaceExceptPercentEncoding)(
+		const URI_CHAR * first, const URI_CHAR * afterLast);
 static UriBool URI_FUNC(LowercaseMalloc)(const URI_CHAR ** first,
 		const URI_CHAR ** afterLast, UriMemoryManager * memory);
 
@@ -321,6 +323,25 @@ static URI_INLINE void URI_FUNC(LowercaseInplace)(const URI_CHAR * first,
 		for (; i < afterLast; i++) {
 			if ((*i >= _UT('A')) && (*i <=_UT('Z'))) {
 				*i = (URI_CHAR)(*i + lowerUpperDiff);
+			}
+		}
+	}
+}
+
+
+
+/* Like LowercaseInplace but leaves percent-encodings alone,
+ * their hex digits are uppercase in normalized form (6.2.2.1) */
+static URI_INLINE void URI_FUNC(LowercaseInplaceExceptPercentEncoding)(
+		const URI_CHAR * first, const URI_CHAR * afterLast) {
+	if ((first != NULL) && (afterLast != NULL) && (afterLast > first)) {
+		URI_CHAR * i = (URI_CHAR *)first;
+		const int lowerUpperDiff = (_UT('a') - _UT('A'));
+		for (; i < afterLast; i++) {
+			if ((*i >= _UT('A')) && (*i <=_UT('Z'))) {
+				*i = (URI_CHAR)(*i + lowerUpperDiff);
+			} else if ((*i == _UT('%')) && (i + 3 <= afterLast)) {
+				i += 2; /* skip the two hex digits */
 			}
 		}
 	}
@@ -714,8 +735,8 @@ static URI_INLINE int URI_FUNC(NormalizeSyntaxEngine)(URI_TYPE(Uri) * uri,
 					doneMask |= URI_NORMALIZE_HOST;
 				}
 
-				URI_FUNC(LowercaseInplace)(uri->hostText.first,
-						uri->hostText.afterLast);
+				URI_FUNC(LowercaseInplaceExceptPercentEncoding)(
+						uri->hostText.first, uri->hostText.afterLast);
 			}
 		}
 	}
